@@ -439,6 +439,10 @@ def run(chk):
     from . import c06
     from .. import emit
     c06.check_common_record(chk, emit.translator_tus(('c.c', 'opcode.c', 'instruction.c'), chk=chk), 'R15.5')
+    # R15.6: the instance wasi_thread_start runs on shares the parent's shared memories - every module-defined shared memory of the
+    # child is the parent's descriptor, whatever its position in the memory index space (rule shared with C18 R18.4 / C16 R16.6)
+    c06.check_shared_descriptor(chk, emit.translator_tus(('c.c', 'opcode.c', 'instruction.c'), chk=chk), 'R15.6')
+    chk.floor('R15.6', 8)
     chk.floor('R15.1', 30)
     chk.floor('R15.2', 12)
     chk.floor('R15.3', 2)
